@@ -35,7 +35,7 @@ Proof.
     destruct (has_default d || complete (d_W d) (final_mask st)); [now injection Ho as ->|discriminate]. }
   assert (Hw : wf_chain steps 0).
   { apply (chain_wf (d_fields d) 0 steps Hc). rewrite Forall_forall. intros f Hf _ fm Hm.
-    unfold valid_decl in Hv. apply andb_prop in Hv. destruct Hv as [Hv _]. apply andb_prop in Hv. destruct Hv as [_ Hvf].
+    destruct (valid_decl_parts d Hv) as (_ & Hvf & _ & _).
     rewrite forallb_forall in Hvf.
     apply (field_mask_nonzero f fm Hm). apply (valid_field_has_a_bit (d_W d)). now apply Hvf. }
   intros calls. unfold final_mask. split.
